@@ -146,32 +146,24 @@ Fixpoint opt_all {A} (l : list (option A)) : option (list A) :=
   | None :: _ => None
   end.
 
-Definition in_uint32 (z : Z) : bool := (0 <=? z)%Z && (z <? 4294967296)%Z.
 
-(* verdict of one property check: passed, or failed under known finding k, or failed *)
-Inductive pv := Pass | Known (k : N) | Fail.
+(* verdict of one property check (C35 has no known findings left) *)
+Inductive pv := Pass | Fail.
 
-(* lookup by volume-id string: [Some us] = the urls returned, [None] = an error *)
+(* lookup by volume-id string: [Some us] = the urls returned, [None] = an error.
+   A string that does not spell a uint32 volume id must not be answered. *)
 Definition urls_ok (d : string) (hist : list ev) (s : string) (out : option (list string)) : pv :=
-  match atoi s with
+  match parse_uint32 s with
   | None => match out with None => Pass | Some _ => Fail end
-  | Some z =>
-      if in_uint32 z then
-        let v := Z.to_N z in
-        match out with
-        | None => match live_locs v hist with [] => Pass | _ => Fail end
-        | Some us =>
-            match opt_all (map (loc_of_url v hist) us) with
-            | None => Fail                                   (* a url that is not currently added *)
-            | Some ls =>
-                if exact_set v hist ls then
-                  if dc_first d ls false then Pass
-                  else if has_reset hist then Known 1 else Fail
-                else Fail
-            end
-        end
-      else (* not a volume id at all: must not be answered *)
-        match out with None => Pass | Some _ => Known 2 end
+  | Some v =>
+      match out with
+      | None => match live_locs v hist with [] => Pass | _ => Fail end
+      | Some us =>
+          match opt_all (map (loc_of_url v hist) us) with
+          | None => Fail                                   (* a url that is not currently added *)
+          | Some ls => if exact_set v hist ls && dc_first d ls false then Pass else Fail
+          end
+      end
   end.
 
 Definition fid_prefix : string := "http://".
@@ -197,15 +189,13 @@ Definition fid_ok (d : string) (hist : list ev) (fid : string) (out : option (li
   else match out with None => Pass | Some _ => Fail end.
 
 Definition locs_ok (hist : list ev) (s : string) (out : option (list loc)) : pv :=
-  match atoi s with
+  match parse_uint32 s with
   | None => match out with None => Pass | Some _ => Fail end
-  | Some z =>
-      if in_uint32 z then
-        match out with
-        | None => match live_locs (Z.to_N z) hist with [] => Pass | _ => Fail end
-        | Some ls => if exact_set (Z.to_N z) hist ls then Pass else Fail
-        end
-      else match out with None => Pass | Some _ => Known 2 end
+  | Some v =>
+      match out with
+      | None => match live_locs v hist with [] => Pass | _ => Fail end
+      | Some ls => if exact_set v hist ls then Pass else Fail
+      end
   end.
 
 Definition res_opt {A} (r : res A) : option A := match r with Ok a => Some a | Err _ => None end.
@@ -295,10 +285,8 @@ Definition step1 (d : string) (x : st) (o : cop) (ob : cobs) : st :=
       match ob, nth_error (s_snaps x) k with
       | ORead ls, Some (v, hd, t) =>
           let past := existsb (fun e => N.eqb (fst e) v && list_eqb loc_eqb (snd e) ls) (s_seen x) in
-          let held_across_delete :=
-            delete_while_held (r_run [] (firstn t (s_hist x))) v (skipn t (s_hist x)) in
           observe x (list_eqb loc_eqb (cells (heap (s_m x)) hd) ls)
-                    (if past then Pass else if held_across_delete then Known 0 else Fail)
+                    (if past then Pass else Fail)
       | _, _ => observe x false Pass
       end
   end.
@@ -315,21 +303,13 @@ Definition start (d : string) : st :=
      s_nontriv := false; s_last := [NF; NF; NF] |}.
 
 Definition is_pass (p : pv) : bool := match p with Pass => true | _ => false end.
-(* smallest known-finding number among the failures, provided every failure is a known one *)
-Fixpoint known_min (l : list pv) (acc : option N) : option N :=
-  match l with
-  | [] => acc
-  | Pass :: l' => known_min l' acc
-  | Fail :: _ => None
-  | Known k :: l' => known_min l' (match acc with Some a => Some (N.min a k) | None => Some k end)
-  end.
 
 Definition check (c : case) : outcome :=
   let d := dstr (client_dc c) in
   let x := steps d (start d) (ops c) (impl c) in
   {| o_corr := s_corr x;
      o_prop := forallb is_pass (s_pv x);
-     o_trig := known_min (s_pv x) None;
+     o_trig := None;
      o_nontrivial := s_nontriv x |}.
 
 Definition summarize_cases (l : list case) : summary := summarize check l.
